@@ -40,6 +40,12 @@ CHECKS['C11'] = dict(technique='exhaustive offline value checker of Auger yields
 CHECKS['C15'] = dict(technique='exhaustive catalogue cross-checker through the public API (ctypes in forked children, plus ASan executor)',
              text='Every element symbol, NIST compound, radionuclide and crystal entry is fetched by name, by index, by published index macro and through the list; equality, uniqueness, bijections, per-entry invariants and deep-copy independence (mutate one copy, free in both orders, look up again) are checked for the complete catalogues.',
              note='Trusted: ctypes struct layouts in xv/xl.py; macro values from the compiled probe.', ref='2 C15')
+CHECKS['C02'] = dict(technique='offline spline checker over recorded API calls vs independently parsed knots (reference interpolant with forward-error bound)',
+             text='Every knot and every interval of every shipped table (photo/Rayleigh/Compton/energy cross sections, form factor, scattering function, f\', f\'\', total and sub-shell Compton profiles, regenerated Kissel sub-shell tables incl. the clamped log-log extension) is probed; values must equal the long-double cubic-spline reference within its forward error bound, and arguments straddling both table ends by 1e-12..1e-3 must fail outside the documented tolerance band.',
+             note='Trusted: refdata parsers, numpy longdouble reference; duplicated abscissae and the one non-monotone table step are handled as described in DESIGN.md.', ref='2 C02')
+CHECKS['C18'] = dict(technique='differential runtime monitor (C++ wrapper vs wrapped C function) under ASan/UBSan with allocation-conservation monitor',
+             text='Each C function with a callable xrlpp wrapper (found by compile probes) is called with an error slot and through the wrapper in a try block over seeded samples of the argument space incl. every failing class; values/objects must agree bit for bit, exception type and what() must match the C error, neither path may leak (allocation balance, LSan), and wrapper objects are used after the C originals are released.',
+             note='Trusted: g++/libstdc++, harness/cppmon.cpp; NULL strings cannot be expressed through std::string and are skipped.', ref='2 C18')
 NOT_APPLICABLE = [
  dict(property_id='C20', reason='Fortran/Pascal/Cython/IDL/SWIG interface files cannot be compiled, loaded or executed in this sandbox (no gfortran, fpc, Cython, swig, IDL), so there is no execution for a runtime monitor to observe; comparing their text is static analysis, a different technique. The executable slices (Java constants, C++ header, exported symbols) are monitored as by-products of C19/C18/C03.'),
 ]
